@@ -354,7 +354,11 @@ func (e *Engine) discharge(res *HarnessResult, cfg RunConfig) {
 				o.Result, o.Model, o.Solver = "sat", Model{}, "none"
 				return
 			}
+			t0 := time.Now()
 			r, m, k := pool.Solve([]*Term{o.Assume, o.Cond}, vars)
+			if d := time.Since(t0); d > 5*time.Second && os.Getenv("VERIF_PROGRESS") != "" {
+				fmt.Fprintf(os.Stderr, "  slow obligation: %s %.1fs kind=%s label=%q pos=%s\n", r, d.Seconds(), o.Kind, o.Label, o.Pos)
+			}
 			o.Result, o.Model, o.Solver = r, m, k
 		}
 		size := 24
